@@ -19,7 +19,10 @@
 EXTENDS Naturals, Sequences, FiniteSets, TLC, Json
 
 Exts == {"py", "PY", "Py", "ts", "TS", "tsx", "js", "jsx", "JS", "rs", "RS", "java", "go", "txt", "dat", "none"}
-Shebangs == {"no", "python", "bash"}
+\* python / pythonAbs: `#!/usr/bin/env python3`, `#!/usr/bin/python3 -u`;  bash: `#!/bin/bash`;
+\* shNote: `#!/bin/sh` followed by a comment line that mentions python (only the shebang LINE decides)
+Shebangs == {"no", "python", "pythonAbs", "bash", "shNote"}
+PythonShebangs == {"python", "pythonAbs"}
 Contents == {"python", "typescript", "rust", "neutral"}
 
 Lower(e) == CASE e \in {"py", "PY", "Py"} -> "py" [] e \in {"ts", "TS"} -> "ts" [] e \in {"js", "JS"} -> "js"
@@ -27,7 +30,7 @@ Lower(e) == CASE e \in {"py", "PY", "Py"} -> "py" [] e \in {"ts", "TS"} -> "ts" 
 ExtLang(e) == CASE Lower(e) = "py" -> "python" [] Lower(e) \in {"ts", "tsx"} -> "typescript"
                 [] Lower(e) \in {"js", "jsx"} -> "javascript" [] Lower(e) = "rs" -> "rust"
                 [] Lower(e) = "java" -> "java" [] Lower(e) = "go" -> "go" [] OTHER -> "unknown"
-LangOf(e, sb) == IF e = "none" THEN (IF sb = "python" THEN "python" ELSE "unknown") ELSE ExtLang(e)
+LangOf(e, sb) == IF e = "none" THEN (IF sb \in PythonShebangs THEN "python" ELSE "unknown") ELSE ExtLang(e)
 
 Linters == {"nesting", "magic-numbers", "srp", "dry", "stringly-typed", "improper-logging", "method-property",
             "stateless-class", "lazy-ignores", "lbyl", "file-placement", "collection-pipeline", "file-header",
